@@ -622,11 +622,13 @@ def auto_family(prop, tier, seed, mc_cfgs, gen_runs, directed, extra_rule):
 @check("C11")
 def c11(prop, tier, seed):
     if tier == "quick":
-        return auto_family(prop, tier, seed, ["CacheAuto_quick.cfg"], [("CacheAuto_gen1.cfg", 40, 40)],
-                           [("CacheAuto_quick.cfg", [("FIX_CREATE", []), ("FIX_READD", [("MaxFsOps = 4", "MaxFsOps = 5")])])], "")
-    return auto_family(prop, tier, seed, ["CacheAuto_thorough.cfg", "CacheAuto_2dir.cfg"],
-                       [("CacheAuto_gen1.cfg", 400, 40), ("CacheAuto_gen2.cfg", 300, 60)],
-                       [("CacheAuto_quick.cfg", [("FIX_CREATE", []), ("FIX_READD", [("MaxFsOps = 4", "MaxFsOps = 5")])])], "")
+        return auto_family(prop, tier, seed, ["CacheAuto_quick.cfg", "CacheAuto_away.cfg"], [("CacheAuto_gen1.cfg", 40, 40), ("CacheAuto_gen3.cfg", 15, 40)],
+                           [("CacheAuto_quick.cfg", [("FIX_CREATE", []), ("FIX_READD", [("MaxFsOps = 4", "MaxFsOps = 5")])]),
+                            ("CacheAuto_away.cfg", [("FIX_RENAMEDIR", [])])], "The rename-away history class (outside the statement's list) is included.")
+    return auto_family(prop, tier, seed, ["CacheAuto_thorough.cfg", "CacheAuto_2dir.cfg", "CacheAuto_away.cfg"],
+                       [("CacheAuto_gen1.cfg", 400, 40), ("CacheAuto_gen2.cfg", 300, 60), ("CacheAuto_gen3.cfg", 200, 40)],
+                       [("CacheAuto_quick.cfg", [("FIX_CREATE", []), ("FIX_READD", [("MaxFsOps = 4", "MaxFsOps = 5")])]),
+                        ("CacheAuto_away.cfg", [("FIX_RENAMEDIR", [])])], "The rename-away history class (outside the statement's list) is included.")
 
 
 @check("C20")
